@@ -89,6 +89,7 @@ def _same(a, b):
 def rule_bucket_lock_scope(ctx, RID, R):
     """bucket access inside a matching lock scope; propagation of 'needs the caller's lock'"""
     n = 0
+    origin = {}     # F.m -> where the unlocked bucket access (transitively) happens
     needs = {}      # F.m -> node of the first unlocked bucket access
     sites = {}      # F.m -> [(callee m, callee q, locked?, node)]
     fmap = {}
@@ -114,6 +115,7 @@ def rule_bucket_lock_scope(ctx, RID, R):
                     hb = _hash_base(e.args[-1])
                     if not locked:
                         needs.setdefault(F.m, e.node)
+                        origin.setdefault(F.m, "%s (%s:%s)" % (F.q.split("::")[-1], F.file.split("/")[-1], e.node.get("l")))
                         continue
                     ok = any(k == "full" or _same(h, hb) for k, h, t in sc[i])
                     ctx.check(ok, RID, F, "a bucket is looked up under a cell lock taken for the same hash (or under the full / resize lock)", e.node,
@@ -133,6 +135,7 @@ def rule_bucket_lock_scope(ctx, RID, R):
                 if cm in req and not locked:
                     req.add(m)
                     needs[m] = node
+                    origin[m] = origin.get(cm, "?")
                     changed = True
                     break
     called_q = set((cq, len(node.get("args", []))) for lst in sites.values() for cm, cq, locked, node in lst)
@@ -145,7 +148,8 @@ def rule_bucket_lock_scope(ctx, RID, R):
             continue
         if name in ("internal_resize",):
             continue
-        ctx.bad(RID, F, "%s touches a bucket with no cell / full lock held and no caller provides one" % name, needs[m], detail=R, sig="unlocked-bucket-access")
+        ctx.bad(RID, F, "%s touches a bucket with no cell / full lock held and no caller provides one" % name, needs[m],
+                detail="the unlocked bucket lookup is in %s. %s" % (origin.get(m, "?"), R), sig="unlocked-bucket-access")
     return n
 
 
